@@ -10,6 +10,7 @@ from . import api
 from .ops import NOCONST, concrete_of, eq, int_to_str, merge, simp, truthy
 from .resolve import ClassInfo, FuncInfo, ModuleInfo
 from .run import Infeasible, RaiseSig, ReturnSig
+from .ex_expr import RECFUNS
 from .ty import (Any, Bool, Bytes, Dict, Int, NodeTy, NoneT, Opaque, Opt, Rec, SeqOf, Str, TupleOf, Ty, Unsupported, V,
                  VAny, VBool, VClass, VConst, VDict, VExc, VFunc, VInt, VList, VNode, VNone, VOpaque, VOpt, VRec, VStr,
                  VTuple, ValSort, EmptyDict, coerce, fresh_name, lift, to_val)
@@ -41,6 +42,8 @@ class CallMixin:
             return VFunc(mod.functions[name])
         if name in mod.classes:
             return VClass(mod.classes[name])
+        if getattr(mod, "is_spec", False) and name in mod.py.__dict__ and name not in mod.functions:
+            return self.lift_py_object(mod.py.__dict__[name], name)
         if name in mod.consts:
             return self.module_const(mod, name)
         if name in mod.imports:
@@ -199,22 +202,23 @@ class CallMixin:
             sub = Frame(fr.module, fr.func, parent=fr, is_spec=fr.is_spec)
             sub.contract = fr.contract
             xv = elem.wrap(x)
-            self.assign_target(g.target, xv, sub)
             self.merge_depth += 1
-            saved = len(self.run.pc)
+            saved = len(self.run.ctx)
             try:
+                self.on_element(it, xv)
+                self.assign_target(g.target, xv, sub)
                 ok = z3.BoolVal(True)
                 for cnd in g.ifs:
                     c = truthy(self.eval(cnd, sub))
                     ok = z3.And(ok, c)
-                    self.run.pc.append(c)
+                    self.run.ctx.append(c)
                 if fname == "sum":
                     pred = ok
                 else:
                     p = truthy(self.eval(comp.elt, sub))
                     pred = z3.And(ok, p) if fname == "any" else z3.Implies(ok, p)
             finally:
-                del self.run.pc[saved:]
+                del self.run.ctx[saved:]
                 self.merge_depth -= 1
             t = self.seq_pred_recfun({"any": "any", "all": "all", "sum": "count"}[fname], it, x, pred)
             return VInt(t) if fname == "sum" else VBool(t)
@@ -272,6 +276,9 @@ class CallMixin:
             return VBool(truthy(args[0]) == truthy(args[1]))
         if name == "old_of":
             return args[0]
+        if name == "mk":
+            ty = args[0].py
+            return VRec(ty, {k: kwargs[k] for k in ty.fields if k in kwargs} | {k: v for k, v in kwargs.items()})
         if name == "call":
             key = concrete_of(args[0])
             finfo = self.repo.lookup(key)
@@ -418,23 +425,23 @@ class CallMixin:
             rty = _ty_of_annotation(ann["return"])
         except KeyError as ex:
             raise Unsupported(f"recursive spec function {finfo.name} needs pyvc type annotations ({ex})")
-        if key not in self.recfuns:
+        if key not in RECFUNS:
             f = z3.RecFunction(f"spec.{finfo.name}", *[t.sort() for t in ptys], rty.sort())
-            self.recfuns[key] = f
+            RECFUNS[key] = f
             consts = [z3.Const(f"{finfo.name}.{n}", t.sort()) for n, t in zip(names, ptys)]
             sub = Frame(mi, finfo, is_spec=True)
             for n, t, c in zip(names, ptys, consts):
                 sub.env[n] = t.wrap(c)
             self.merge_depth += 1
-            saved_pc = self.run.pc
-            self.run.pc = []
+            saved_pc = self.run.ctx
+            self.run.ctx = []
             try:
                 body = self.merge_block(finfo.node.body, sub)
             finally:
                 self.merge_depth -= 1
-                self.run.pc = saved_pc
+                self.run.ctx = saved_pc
             z3.RecAddDefinition(f, consts, rty.pack(body))
-        f = self.recfuns[key]
+        f = RECFUNS[key]
         params = self.bind_params(finfo, None, args, kwargs)
         return rty.wrap(f(*[t.pack(params[n]) for n, t in zip(names, ptys)]))
 
@@ -450,16 +457,16 @@ class CallMixin:
                     return self.merge_block(list(st.body) + rest, fr)
                 if z3.is_false(c):
                     return self.merge_block(list(st.orelse) + rest, fr)
-                saved = len(self.run.pc)
+                saved = len(self.run.ctx)
                 fa, fb = self._fork_frame(fr), self._fork_frame(fr)
                 try:
-                    self.run.pc.append(c)
+                    self.run.ctx.append(c)
                     a = self.merge_block(list(st.body) + rest, fa)
-                    del self.run.pc[saved:]
-                    self.run.pc.append(z3.Not(c))
+                    del self.run.ctx[saved:]
+                    self.run.ctx.append(z3.Not(c))
                     b = self.merge_block(list(st.orelse) + rest, fb)
                 finally:
-                    del self.run.pc[saved:]
+                    del self.run.ctx[saved:]
                 return merge(c, a, b)
             if isinstance(st, (ast.Assign, ast.AnnAssign, ast.Expr, ast.Pass)):
                 self.exec_stmt(st, fr)
@@ -485,10 +492,13 @@ class CallMixin:
             if a.arg not in values:
                 raise Unsupported(f"{c.target}: spec {name} wants parameter {a.arg!r} which is not available")
             sf.env[a.arg] = values[a.arg]
+        self.spec_depth += 1
         try:
             self.exec_block(fn.body, sf)
         except ReturnSig as r:
             return r.value
+        finally:
+            self.spec_depth -= 1
         raise Unsupported(f"{c.target}: spec {name} returns nothing")
 
     def apply_contract(self, c, finfo, bound_self, args, kwargs, lineno):
@@ -517,7 +527,10 @@ class CallMixin:
                         raise RaiseSig(VExc(cls))
         for path in c.modifies:
             self.havoc_path(params, path, c)
-        if c.returns is None:
+        if "value" in c.methods:
+            # functional contract: the result IS the spec value (usable under binders, no fresh symbol)
+            result = self.spec_eval(c, "value", vals)
+        elif c.returns is None:
             result = VNone()
         else:
             result = c.returns.fresh("ret")
@@ -530,7 +543,20 @@ class CallMixin:
         return result
 
     def on_fresh(self, v):
-        pass
+        """Trusted facts about a freshly introduced symbolic value (type invariants of the abstract domain)."""
+        from .ty import VNode, VRec, VTuple, VOpt
+        if isinstance(v, VNode):
+            h = getattr(v.ty, "on_fresh", None)
+            if h is not None:
+                h(self, v)
+        elif isinstance(v, VRec):
+            for x in v.fields.values():
+                self.on_fresh(x)
+        elif isinstance(v, VTuple):
+            for x in v.items:
+                self.on_fresh(x)
+        elif isinstance(v, VOpt):
+            self.on_fresh(v.val)
 
     def adapt_arg(self, v, ty):
         """Give an argument the representation the callee's contract declares (e.g. literal dict -> Dict)."""
@@ -895,6 +921,17 @@ class CallMixin:
     def bi_getattr(self, args, kwargs, lineno):
         obj, name = args[0], concrete_of(args[1])
         if name is NOCONST:
+            nm = args[1]
+            if isinstance(nm, VOpt):
+                self.safety(z3.Not(nm.isnone), "getattr(None name)", lineno)
+                nm = nm.val
+            if isinstance(obj, VRec) and isinstance(nm, VStr):
+                for k, v in obj.fields.items():
+                    if self.decide(nm.t == z3.StringVal(k)):
+                        return v
+                if len(args) == 3:
+                    return args[2]
+                raise RaiseSig(VExc("AttributeError"))
             raise Unsupported("getattr with symbolic name")
         if len(args) == 3:
             if isinstance(obj, VRec) and name not in obj.fields and self.class_of_rec(obj) is None:
